@@ -243,6 +243,118 @@ Qed.
 Lemma Forall2_len {A B} (R : A -> B -> Prop) la lb : Forall2 R la lb -> length la = length lb.
 Proof. induction 1; cbn [length]; congruence. Qed.
 
+(* ---- explicit forms of the array encodings, fixed widths, always-decoding arrays *)
+Lemma arr_plain_form n e l :
+  is_bits e = false -> RT e -> wf_ty (TArrFixed n e) = true -> in_dom (TArrFixed n e) (VList l) = true ->
+  exists bss, Forall2 (good e) (firstn n l) bss /\ forallb (in_dom e) (firstn n l) = true
+              /\ length (firstn n l) = n /\ encode (TArrFixed n e) (VList l) = Ok (concat bss).
+Proof.
+  intros Hnb Hrt Hwf Hd. cbn [wf_ty] in Hwf.
+  apply andb_prop in Hwf as [Hwf Hg]. apply andb_prop in Hwf as [Hwf Hi].
+  apply negb_true_iff in Hg, Hi. cbn [in_dom] in Hd.
+  assert (Hd' : (Z.of_nat n <=? zlen l) && forallb (in_dom e) (firstn n l) = true) by (destruct e; try exact Hd; discriminate Hnb).
+  clear Hd. apply andb_prop in Hd' as [Hl Hd].
+  destruct (list_good e _ Hrt Hwf Hg Hd) as (bss & Hbss).
+  assert (Hlen : length (firstn n l) = n) by (rewrite firstn_length; unfold zlen in Hl; lia).
+  exists bss. repeat split; try assumption.
+  cbn [encode]. unfold array_encode. cbn [py_len bind].
+  destruct (zlen l <? Z.of_nat n) eqn:E; [lia|]. cbn [bind]. rewrite Hi.
+  replace (bits_width e) with (@None nat) by (destruct e; try reflexivity; discriminate Hnb).
+  rewrite encode_items_list by (unfold zlen in Hl; lia). cbn [skipn].
+  now rewrite (enc_all_good _ _ _ Hbss Hd).
+Qed.
+
+Lemma arr_bits_form n w l :
+  wf_ty (TArrFixed n (TBits w)) = true -> in_dom (TArrFixed n (TBits w)) (VList l) = true ->
+  exists xs bss, Forall2 (good (TBits w)) xs bss /\ forallb (in_dom (TBits w)) xs = true
+              /\ length xs = n /\ encode (TArrFixed n (TBits w)) (VList l) = Ok (concat bss).
+Proof.
+  intros Hwf Hd. cbn [wf_ty is_instance greedy negb andb] in Hwf. rewrite !andb_true_r in Hwf.
+  cbn [in_dom] in Hd. apply andb_prop in Hd as [Hl Hb].
+  assert (Hw : (0 < w)%nat) by lia.
+  assert (Hlen : length l = (n * (w * 8))%nat) by (unfold zlen in Hl; lia).
+  set (cs := chunks_of n (w * 8) l).
+  pose proof (chunks_in_dom w n l Hlen Hb) as Hcd. fold cs in Hcd.
+  destruct (list_good (TBits w) (map VList cs) (rt_TBits w) Hwf eq_refl Hcd) as (bss & Hbss).
+  exists (map VList cs), bss. repeat split; try assumption.
+  - rewrite map_length. unfold cs. apply chunks_of_length.
+  - cbn [encode bits_width is_instance]. unfold array_encode. cbn [py_len bind].
+    assert (Hge : Z.of_nat n <= zlen l) by (unfold zlen; rewrite Hlen; nia).
+    destruct (zlen l <? Z.of_nat n) eqn:E; [lia|]. cbn [bind].
+    rewrite match_pos by lia.
+    replace (Z.to_nat (zlen l)) with (length l) by (unfold zlen; lia).
+    pose proof (chunk_vals_chunks (w * 8) cs [] (S (length l)) ltac:(lia)
+                  (chunks_of_each n (w * 8) l Hlen)) as Hcv.
+    cbn [app length] in Hcv. unfold cs in Hcv at 2 3. rewrite chunks_of_concat in Hcv by exact Hlen.
+    rewrite Hcv by (unfold cs; rewrite chunks_of_length; unfold zlen in Hl; nia). cbn [bind].
+    replace (Z.to_nat (zlen l / Z.of_nat (w * 8))) with n by (unfold zlen; rewrite Hlen; nia).
+    rewrite encode_items_list by (rewrite map_length; unfold cs; rewrite chunks_of_length; lia).
+    cbn [skipn]. rewrite firstn_all2 by (rewrite map_length; unfold cs; rewrite chunks_of_length; lia).
+    change (bits_encode w) with (encode (TBits w)).
+    now rewrite (enc_all_good _ _ _ Hbss Hcd).
+Qed.
+
+Lemma concat_fixed_length e xs bss w :
+  Forall2 (good e) xs bss -> forallb (in_dom e) xs = true -> FW e -> fixed_width e = Some w -> wf_ty e = true ->
+  length (concat bss) = (length xs * w)%nat.
+Proof.
+  intros H Hd Hfw Hw Hwf. induction H as [|x b xs bss [He _] _ IH]; [reflexivity|].
+  cbn [forallb] in Hd. apply andb_prop in Hd as [Hx Hxs].
+  cbn [concat length]. rewrite app_length, (IH Hxs), (Hfw w x b Hw Hwf Hx He). lia.
+Qed.
+
+Lemma fw_TArrFixed n e : RT e -> FW e -> FW (TArrFixed n e).
+Proof.
+  intros Hrt Hfw w v bs Hw Hwf Hd He. cbn [fixed_width] in Hw.
+  destruct (fixed_width e) as [we|] eqn:Ew; [|discriminate]. injection Hw as <-.
+  assert (Hwfe : wf_ty e = true).
+  { cbn [wf_ty] in Hwf. apply andb_prop in Hwf as [Hwf _]. now apply andb_prop in Hwf as [Hwf _]. }
+  destruct v; try (cbn [in_dom] in Hd; discriminate Hd).
+  destruct (is_bits e) eqn:Eb.
+  - destruct e; try discriminate Eb.
+    destruct (arr_bits_form n w l Hwf Hd) as (xs & bss & H1 & H2 & H3 & H4).
+    rewrite He in H4. injection H4 as ->. rewrite (concat_fixed_length _ _ _ _ H1 H2 Hfw Ew Hwfe). now rewrite H3.
+  - destruct (arr_plain_form n e l Eb Hrt Hwf Hd) as (bss & H1 & H2 & H3 & H4).
+    rewrite He in H4. injection H4 as ->. rewrite (concat_fixed_length _ _ _ _ H1 H2 Hfw Ew Hwfe). now rewrite H3.
+Qed.
+
+Lemma decode_n_ad e we fuel :
+  AD e -> always_decodes e = true -> fixed_width e = Some we ->
+  forall n bs rest, length bs = (n * we)%nat ->
+  exists vs, decode_n (decode_fuel fuel e) n (bs ++ rest) = DOk (VList vs) rest
+             /\ (is_bits e = true -> Forall (fun v => exists l, v = VList l) vs).
+Proof.
+  intros Had Ha Hw. induction n as [|n IH]; intros bs rest Hl.
+  - destruct bs; [|discriminate Hl]. exists []. split; [reflexivity|constructor].
+  - cbn [decode_n]. rewrite <- (firstn_skipn we bs), <- app_assoc.
+    destruct (Had we (firstn we bs) (skipn we bs ++ rest) fuel Ha Hw) as (v & Hv & Hvb).
+    { rewrite firstn_length. lia. }
+    rewrite Hv. cbn [dbind].
+    destruct (IH (skipn we bs) rest) as (vs & Hvs & Hb).
+    { rewrite skipn_length. lia. }
+    rewrite Hvs. cbn [dbind]. exists (v :: vs). split; [reflexivity|].
+    intros Eb. constructor; [now apply Hvb|now apply Hb].
+Qed.
+
+Lemma chain_vals_vlists vs : Forall (fun v => exists l, v = VList l) vs -> exists f, chain_vals vs = Ok f.
+Proof.
+  induction 1 as [|v vs [l ->] _ [f IH]]; [now exists []|].
+  cbn [chain_vals py_iter bind]. rewrite IH. cbn [bind]. eexists. reflexivity.
+Qed.
+
+Lemma ad_TArrFixed n e : AD e -> AD (TArrFixed n e).
+Proof.
+  intros Had w bs rest fuel Ha Hw Hl. cbn [always_decodes] in Ha. apply andb_prop in Ha as [Ha Hi].
+  apply negb_true_iff in Hi. cbn [fixed_width] in Hw.
+  destruct (fixed_width e) as [we|] eqn:Ew; [|discriminate]. injection Hw as <-.
+  destruct (decode_n_ad e we fuel Had Ha Ew n bs rest Hl) as (vs & Hvs & Hb).
+  cbn [decode_fuel]. unfold array_decode_fixed. rewrite Hvs, Hi. cbn [dbind].
+  destruct (is_bits e) eqn:Eb.
+  - destruct (chain_vals_vlists vs (Hb eq_refl)) as (f & Hf). rewrite Hf. cbn [dwrap].
+    eexists. split; [reflexivity|discriminate].
+  - cbn [dwrap]. eexists. split; [reflexivity|discriminate].
+Qed.
+
 (* ---- Array(None, T) *)
 Lemma rt_TArrAll e : RT e -> NE e -> EM e -> RT (TArrAll e).
 Proof.
@@ -507,6 +619,7 @@ Proof.
   destruct ms as [|m ms]; [discriminate Hc|]. cbn [headb] in Hc. cbn [forallb] in Hwf. apply andb_prop in Hwf as [Hwm _].
   inversion Hem as [|? ? Hm _]; subst.
   cbn [decode_fuel]. unfold structtag_decode. rewrite firstn_nil, skipn_nil.
+  apply andb_prop in Hwm as [Hwm _].
   destruct m as [[k off] t]. cbn [map stag_decode_members fst snd length Nat.sub].
   replace (if (0 <? off)%nat then skipn (off - 0) [] else []) with (@nil Z) by (destruct (0 <? off)%nat; [now rewrite skipn_nil|reflexivity]).
   cbn [snd] in Hm, Hwm, Hc. now rewrite (Hm Hwm Hc fuel).
